@@ -224,6 +224,9 @@ func primToGo(p string, v val.Value, dst reflect.Value) error {
 		var tm time.Time
 		if v.Date != nil && !v.Date.Zero {
 			tm = time.Unix(0, v.Date.Nanos)
+			if v.Date.Far {
+				tm = time.Unix(v.Date.Sec, v.Date.Nanos)
+			}
 			if v.Date.Offset != 0 {
 				tm = tm.In(time.FixedZone("sim", v.Date.Offset))
 			} else {
